@@ -102,3 +102,20 @@ def wellformed_py(f):
     which are quadratic): b5 62, class, id, LE length == actual payload length, textbook Fletcher-8."""
     return (len(f) >= 8 and f[0:2] == b"\xb5\x62" and int.from_bytes(f[4:6], "little") == len(f) - 8
             and f[-2:] == fletcher(f[2:-2]))
+
+
+def frame_with_checksum(cls, mid, target, rng, n=6):
+    """A valid frame (payload of n bytes) whose two checksum bytes are exactly `target` (Fletcher-8 is linear: the last
+    two payload bytes are solved for by search)."""
+    for _ in range(200):
+        head = bytes(rng.randrange(256) for _ in range(n - 2))
+        for a in range(256):
+            for b in range(256):
+                pl = head + bytes([a, b])
+                f = ubx_frame(cls, mid, pl)
+                if f[-2:] == target:
+                    return f
+    return None
+
+
+SPECIAL_CHECKSUMS = (b"\r\n", b"\n\n", b"\x00\x00", b"\xff\xff", b"\xb5\x62", b"\x24\x47", b"\xd3\x00", b"'\"", b", ")
